@@ -18,13 +18,31 @@ pub fn has_method(module: &str, name: &str) -> bool {
         ],
         "tuple" => &["size", "first", "last", "get", "contains", "to_list", "is_empty"],
         "map" => &[
-            "insert", "get", "remove", "size", "contains_key", "is_empty", "keys", "values",
+            "insert", "get", "remove", "size", "contains_key", "is_empty", "keys", "values", "with_meta",
         ],
         "string" => &["size", "to_uppercase", "to_lowercase", "contains", "is_empty", "chars"],
         "range" => &["start", "end", "size", "contains"],
         "iterator" => &["next", "to_tuple", "to_list", "count", "each", "keep", "fold"],
         "number" => &[],
         "out" => &["get"],
+        _ => &[],
+    };
+    list.contains(&name)
+}
+
+/// names that exist in the real core library but are not modelled by kref (so that a generated
+/// program using them is skipped instead of being judged)
+pub fn known_core_name(module: &str, name: &str) -> bool {
+    let list: &[&str] = match module {
+        "map" => &[
+            "clear", "extend", "get_index", "get_meta", "sort", "update", "with_meta", "keys", "values", "remove", "insert", "get",
+            "contains_key", "is_empty", "size",
+        ],
+        "iterator" => &[
+            "all", "any", "chain", "chunks", "consume", "cycle", "enumerate", "find", "flatten", "generate", "intersperse", "iter",
+            "last", "max", "min", "min_max", "once", "peekable", "position", "product", "repeat", "reversed", "skip", "step", "sum",
+            "take", "to_map", "to_string", "windows", "zip", "next_back", "fold", "each", "keep", "count", "to_list", "to_tuple", "next",
+        ],
         _ => &[],
     };
     list.contains(&name)
@@ -38,6 +56,9 @@ fn size_of(ip: &Rc<Interp>, v: &V) -> R {
         V::Map(m) => {
             if let Some(f) = m.get_meta("@size") {
                 return ip.call_sync(f, vec![], Some(v.clone()));
+            }
+            if m.has_meta("@host") {
+                return rt("size not implemented by host object");
             }
             V::Int(m.entries.borrow().len() as i64)
         }
@@ -96,11 +117,17 @@ fn shallow_copy(v: &V) -> Result<V, Ctl> {
 pub fn call_native(ip: Rc<Interp>, n: Rc<NativeFn>, mut args: Vec<V>, this: Option<V>) -> Fut {
     Box::pin(async move {
         // `x.method(args)`: the receiver is the first argument; `module.method(x, args)` likewise
+        let name = n.name.as_str();
+        if name.starts_with("host:") {
+            let Some(me) = this else {
+                return rt("host method without an instance");
+            };
+            return crate::knative::host_op(ip.clone(), name, me, args).await;
+        }
         let recv = n.recv.clone().or(this.filter(|_| false));
         if let Some(r) = recv {
             args.insert(0, r);
         }
-        let name = n.name.as_str();
         match name {
             "print" => {
                 let text = match args.len() {
@@ -113,6 +140,10 @@ pub fn call_native(ip: Rc<Interp>, n: Rc<NativeFn>, mut args: Vec<V>, this: Opti
                 o.push('\n');
                 Ok(V::Null)
             }
+            "mkhost" => match args.as_slice() {
+                [V::Str(tag), V::Int(mask)] => Ok(make_host(tag, *mask as u32)),
+                _ => rt("mkhost args"),
+            },
             "size" | "koto.size" => {
                 if args.len() != 1 {
                     return rt("size: one argument");
@@ -316,6 +347,13 @@ pub fn call_native(ip: Rc<Interp>, n: Rc<NativeFn>, mut args: Vec<V>, this: Opti
                 }
                 _ => rt("args"),
             },
+            "map.with_meta" => match args.as_slice() {
+                [V::Map(m), V::Map(meta_src)] => Ok(V::Map(Rc::new(MapObj {
+                    entries: RefCell::new(m.entries.borrow().clone()),
+                    meta: RefCell::new(meta_src.meta.borrow().clone()),
+                }))),
+                _ => rt("args"),
+            },
             "map.contains_key" => match args.as_slice() {
                 [V::Map(m), k] => {
                     check_key(k)?;
@@ -457,4 +495,132 @@ fn check_key(k: &V) -> Result<(), Ctl> {
         }
         _ => Err(Ctl::Err("unhashable key".into())),
     }
+}
+
+// ---------------------------------------------------------------------------------------------
+// kref's model of the harness host object (hostobj.rs): a map object with the equivalent metakeys
+
+const HOST_OPS: [&str; 6] = ["+", "-", "*", "/", "%", "^"];
+
+fn host_native(name: &str) -> V {
+    V::Native(Rc::new(NativeFn { name: format!("host:{name}"), recv: None }))
+}
+
+pub fn make_host(tag: &str, mask: u32) -> V {
+    let mut meta: Vec<(String, V)> = vec![("@type".into(), V::str("HostObj")), ("@host".into(), V::Bool(true))];
+    for (i, op) in HOST_OPS.iter().enumerate() {
+        if mask & (1 << i) != 0 {
+            meta.push((format!("@{op}"), host_native(op)));
+        }
+        if mask & (1 << (6 + i)) != 0 {
+            meta.push((format!("@r{op}"), host_native(&format!("r{op}"))));
+        }
+        if mask & (1 << (12 + i)) != 0 {
+            meta.push((format!("@{op}="), host_native(&format!("{op}="))));
+        }
+    }
+    if mask & (1 << 18) != 0 {
+        meta.push(("@<".into(), host_native("<")));
+    }
+    if mask & (1 << 19) != 0 {
+        meta.push(("@==".into(), host_native("==")));
+    }
+    if mask & (1 << 20) != 0 {
+        meta.push(("@negate".into(), host_native("negate")));
+    }
+    if mask & (1 << 21) != 0 {
+        meta.push(("@index".into(), host_native("index")));
+        meta.push(("@size".into(), host_native("size")));
+    }
+    if mask & (1 << 22) != 0 {
+        meta.push(("@call".into(), host_native("call")));
+    }
+    meta.push(("@display".into(), host_native(if mask & (1 << 23) != 0 { "display" } else { "display-default" })));
+    meta.push(("@meta describe".into(), host_native("describe")));
+    meta.push(("@meta bump".into(), host_native("bump")));
+    V::Map(Rc::new(MapObj {
+        entries: RefCell::new(vec![(V::str("tag"), V::str(tag)), (V::str("val"), V::Int(1))]),
+        meta: RefCell::new(Some(Rc::new(RefCell::new(meta)))),
+    }))
+}
+
+fn host_rp(v: &V) -> V {
+    match v {
+        V::Map(m) => match m.get(&V::str("tag")) {
+            Some(V::Str(t)) => V::str(&format!("<{t}>")),
+            _ => V::str("<map>"),
+        },
+        V::Int(_) | V::Float(_) | V::Str(_) => v.clone(),
+        V::List(_) => V::str("<list>"),
+        _ => V::str("<other>"),
+    }
+}
+
+pub fn host_op(ip: Rc<Interp>, name: &str, me: V, args: Vec<V>) -> Fut {
+    let name = name.to_string();
+    Box::pin(async move {
+        let V::Map(m) = &me else { return rt("host self") };
+        let tag = match m.get(&V::str("tag")) {
+            Some(V::Str(t)) => t.to_string(),
+            _ => return rt("host tag"),
+        };
+        let key = &name[5..];
+        let emit = |items: Vec<V>| -> Result<(), Ctl> {
+            let text = ip.display(&V::tuple(items))?;
+            let mut o = ip.out.borrow_mut();
+            o.push_str(&text);
+            o.push('\n');
+            Ok(())
+        };
+        let arg0 = args.first().map(host_rp);
+        match key {
+            "+" | "-" | "*" | "/" | "%" | "^" => {
+                emit(vec![V::str(&format!("host@{key}")), V::str(&tag), arg0.unwrap_or(V::Null)])?;
+                Ok(V::str("hres-l"))
+            }
+            "r+" | "r-" | "r*" | "r/" | "r%" | "r^" => {
+                emit(vec![V::str(&format!("host@{key}")), V::str(&tag), arg0.unwrap_or(V::Null)])?;
+                Ok(V::str("hres-r"))
+            }
+            "+=" | "-=" | "*=" | "/=" | "%=" | "^=" => {
+                emit(vec![V::str(&format!("host@{key}")), V::str(&tag), arg0.unwrap_or(V::Null)])?;
+                if let Some(V::Int(v)) = m.get(&V::str("val")) {
+                    m.insert(V::str("val"), V::Int(v + 10));
+                }
+                Ok(me.clone())
+            }
+            "<" | "==" => {
+                emit(vec![V::str(&format!("host@{key}")), V::str(&tag), arg0.unwrap_or(V::Null)])?;
+                Ok(V::Bool(false))
+            }
+            "negate" => {
+                emit(vec![V::str("host@negate"), V::str(&tag)])?;
+                Ok(V::str("hnegated"))
+            }
+            "index" => {
+                emit(vec![V::str("host@index"), V::str(&tag), arg0.unwrap_or(V::Null)])?;
+                match args.first() {
+                    Some(V::Int(i)) => Ok(V::Int(i * 10)),
+                    _ => Ok(V::Null),
+                }
+            }
+            "size" => Ok(V::Int(2)),
+            "call" => {
+                emit(vec![V::str("host@call"), V::str(&tag), arg0.unwrap_or(V::str(""))])?;
+                Ok(V::str("hcalled"))
+            }
+            "display" => Ok(V::str(&format!("HOST({tag})"))),
+            "display-default" => Ok(V::str("HostObj")),
+            "describe" => Ok(V::str(&format!("host {tag}"))),
+            "bump" => {
+                let v = match m.get(&V::str("val")) {
+                    Some(V::Int(v)) => v + 1,
+                    _ => 0,
+                };
+                m.insert(V::str("val"), V::Int(v));
+                Ok(V::Int(v))
+            }
+            other => Err(Ctl::Unmodelled(format!("host op {other}"))),
+        }
+    })
 }
